@@ -319,10 +319,12 @@ class Recognizer(IRecognizer):
                     cnode = Node(node)
                     # try exact match first, dashes if that doesn't match,
                     # then keys with only some of the underscores dashed
-                    mixed = [
+                    # (sorted, so that the order of the keys in the
+                    # document makes no difference)
+                    mixed = sorted([
                             kn.value for kn, _ in node.value
                             if isinstance(kn, yaml.ScalarNode)
-                            and kn.value.replace('-', '_') == attr_name]
+                            and kn.value.replace('-', '_') == attr_name])
                     for name in [
                             attr_name, attr_name.replace('_', '-')] + mixed:
                         if cnode.has_attribute(name):
